@@ -1,1 +1,60 @@
-// harness for rs/anda_db/src/collection.rs (mounted by #[cfg(kani)] hook)
+// @module collection::verif_kani
+// Kani harnesses for rs/anda_db/src/collection.rs — property C03: ScanOrder::truncate, the single
+// place where every bounded query is cut: a bounded page is the first / last `limit` elements of the
+// full ascending result.
+use super::*;
+
+// @check id=C03 tier=quick cap=600 role=truncate_is_an_end_of_the_result
+// @fns collection::ScanOrder::truncate, collection::ScanOrder::is_descending
+// @bound strictly ascending result of 0..5 full-width symbolic ids; limit any usize; both orders
+#[kani::proof]
+#[kani::unwind(7)]
+fn c03_truncate_keeps_first_or_last_limit() {
+    const N: usize = 5;
+    let vals: [u64; N] = kani::any();
+    let len: usize = kani::any();
+    kani::assume(len <= N);
+    let mut i = 1;
+    while i < N {
+        kani::assume(vals[i - 1] < vals[i]);
+        i += 1;
+    }
+    let limit: usize = kani::any();
+    let desc: bool = kani::any();
+    let mut v: Vec<u64> = Vec::with_capacity(N);
+    let mut j = 0;
+    while j < len {
+        v.push(vals[j]);
+        j += 1;
+    }
+    let order = if desc { ScanOrder::Descending } else { ScanOrder::Ascending };
+    assert!(order.is_descending() == desc, "is_descending");
+    order.truncate(&mut v, limit);
+    let keep = if limit == 0 || limit >= len { len } else { limit };
+    assert!(v.len() == keep, "limit == 0 means no limit; otherwise min(limit, len) elements remain");
+    let off = if desc { len - keep } else { 0 };
+    let mut k = 0;
+    while k < keep {
+        assert!(v[k] == vals[off + k], "the page is the first (ascending) / last (descending) `limit` elements, still ascending");
+        k += 1;
+    }
+    kani::cover!(desc && keep < len && keep > 0, "descending page cut from the front");
+    kani::cover!(!desc && keep < len && keep > 0, "ascending page cut from the back");
+    kani::cover!(limit == 0 && len == N, "no limit");
+    kani::cover!(limit == len && len > 0, "limit == len");
+    std::mem::forget(v);
+}
+
+// @check id=C03 tier=thorough cap=300 expect=fail role=witness_truncate
+// @fns collection::ScanOrder::truncate
+// @bound vacuity twin: must come back FAILED
+#[kani::proof]
+#[kani::unwind(7)]
+fn c03_truncate_witness_must_fail() {
+    let mut v: Vec<u64> = vec![1, 2, 3];
+    let limit: usize = kani::any();
+    ScanOrder::Descending.truncate(&mut v, limit);
+    let n = v.len();
+    std::mem::forget(v);
+    assert!(n > 3, "reachability witness");
+}
